@@ -132,6 +132,19 @@ async def run_worker(loop, sc: dict, make=None, projector=inmem_projector, signa
     conn = Connection(broker, ab, rb)
     if extra_setup is not None:
         extra_setup(conn, rec)
+    if sc.get("slow_signals_ms"):
+        # subscribers that only observe, but take their time (tracing, metrics): the settling calls are no longer instantaneous
+        class _Slow:
+            pass
+        slow = _Slow()
+        for name in ("before_reject", "before_ack", "before_nack", "before_requeue"):
+            def mk(name=name):
+                async def sub():
+                    await asyncio.sleep(sc["slow_signals_ms"] / 1000)
+                sub.__name__ = name
+                return sub
+            setattr(slow, name, mk())
+        conn.middleware.add_middleware(slow)
     rec.wrap_broker(broker)
     rec.projectors.append(projector(broker))
     if signature is not None:
